@@ -121,14 +121,16 @@ type Augment struct {
 }
 
 type Deviate struct {
-	Kind      string   `json:"kind"` // not-supported add replace delete (or an unknown word)
-	Config    *bool    `json:"config,omitempty"`
-	Mandatory *bool    `json:"mandatory,omitempty"`
-	Default   *string  `json:"default,omitempty"`
-	Min       string   `json:"min,omitempty"`
-	Max       string   `json:"max,omitempty"`
-	Units     string   `json:"units,omitempty"`
-	Type      *TypeRef `json:"type,omitempty"`
+	Kind      string  `json:"kind"` // not-supported add replace delete (or an unknown word)
+	Config    *bool   `json:"config,omitempty"`
+	Mandatory *bool   `json:"mandatory,omitempty"`
+	Default   *string `json:"default,omitempty"`
+	Min       string  `json:"min,omitempty"`
+	Max       string  `json:"max,omitempty"`
+	Units     string  `json:"units,omitempty"`
+	// EmptyUnits: the statement is units ""; (Units is then empty too).
+	EmptyUnits bool     `json:"empty_units,omitempty"`
+	Type       *TypeRef `json:"type,omitempty"`
 }
 
 type Deviation struct {
@@ -259,7 +261,7 @@ func (m *Module) Text() string {
 }
 
 func (p *pr) deviate(d *Deviate) {
-	if d.Config == nil && d.Mandatory == nil && d.Default == nil && d.Min == "" && d.Max == "" && d.Units == "" && d.Type == nil {
+	if d.Config == nil && d.Mandatory == nil && d.Default == nil && d.Min == "" && d.Max == "" && d.Units == "" && !d.EmptyUnits && d.Type == nil {
 		p.line("deviate %s;", d.Kind)
 		return
 	}
@@ -267,7 +269,7 @@ func (p *pr) deviate(d *Deviate) {
 	if d.Type != nil {
 		p.typ(d.Type)
 	}
-	if d.Units != "" {
+	if d.Units != "" || d.EmptyUnits {
 		p.line("units %s;", Q(d.Units))
 	}
 	if d.Default != nil {
